@@ -3,5 +3,7 @@
 #![cfg(kani)]
 
 pub mod common;
-mod c14;
+mod c11;
+pub mod c14;
 mod c17;
+mod c18;
